@@ -29,6 +29,23 @@ func ruleDeepCopy(c *Ctx, r *Report, prefix string) {
 	fns := c.ModFuncs("lzma")
 	sort.Slice(fns, func(i, j int) bool { return FnName(fns[i]) < FnName(fns[j]) })
 	n := 0
+	// a deepcopy that starts with `*dst = *src` makes the reference fields of dst (and of the codecs
+	// nested in it) aliases of the source: from then on no deepcopy may fill storage dst already has
+	wholeIn := ""
+	for _, fn := range fns {
+		if fn.Name() != "deepcopy" || fn.Signature.Recv() == nil || len(fn.Params) != 2 || fn.Blocks == nil {
+			continue
+		}
+		for _, b := range fn.Blocks {
+			for _, ins := range b.Instrs {
+				if st, isSt := ins.(*ssa.Store); isSt && st.Addr == ssa.Value(fn.Params[0]) {
+					if ld, isLd := st.Val.(*ssa.UnOp); isLd && ld.X == ssa.Value(fn.Params[1]) {
+						wholeIn = FnName(fn)
+					}
+				}
+			}
+		}
+	}
 	for _, fn := range fns {
 		if fn.Name() != "deepcopy" || fn.Signature.Recv() == nil || len(fn.Params) != 2 || fn.Blocks == nil {
 			continue
@@ -67,6 +84,28 @@ func ruleDeepCopy(c *Ctx, r *Report, prefix string) {
 				if !isC {
 					continue
 				}
+				// a new helper that returns a freshly made slice filled from its parameter: copyProbs(src.f)
+				if h := call.Call.StaticCallee(); h != nil && theCtx.IsNew(h) && h.Signature.Results().Len() == 1 {
+					if ms, isMk := singleReturnRaw(h).(*ssa.MakeSlice); isMk && ms.Referrers() != nil {
+						for _, ref := range *ms.Referrers() {
+							cp, isCp := ref.(*ssa.Call)
+							if !isCp || len(cp.Call.Args) != 2 || cp.Call.Args[0] != ssa.Value(ms) {
+								continue
+							}
+							if cb, isCB := cp.Call.Value.(*ssa.Builtin); !isCB || cb.Name() != "copy" {
+								continue
+							}
+							for i, prm := range h.Params {
+								if cp.Call.Args[1] == ssa.Value(prm) && i < len(call.Call.Args) {
+									if fs := rootField(call.Call.Args[i], src); fs != nil {
+										localFrom[call] = fs
+										localFrom[ms] = fs // what the call resolves to when looked through
+									}
+								}
+							}
+						}
+					}
+				}
 				bi, isB := call.Call.Value.(*ssa.Builtin)
 				if !isB || len(call.Call.Args) < 2 {
 					continue
@@ -85,10 +124,38 @@ func ruleDeepCopy(c *Ctx, r *Report, prefix string) {
 				}
 			}
 		}
+		// `*dst = *src` copies every field; fields that carry references are shared by it and must be
+		// copied deeply afterwards
+		var whole *ssa.Store
+		for _, b := range fn.Blocks {
+			for _, ins := range b.Instrs {
+				if st, isSt := ins.(*ssa.Store); isSt && st.Addr == ssa.Value(dst) {
+					if ld, isLd := st.Val.(*ssa.UnOp); isLd && ld.X == ssa.Value(src) {
+						whole = st
+					}
+				}
+			}
+		}
+		after := func(ins ssa.Instruction) bool {
+			if whole == nil {
+				return true
+			}
+			if ins.Block() == whole.Block() {
+				return instrBefore(whole, ins)
+			}
+			return ins.Parent() == fn && whole.Block().Dominates(ins.Block())
+		}
+		early := map[*types.Var]bool{}
 		for _, b := range theCtx.GB(fn) {
 			for _, ins := range b.Instrs {
 				switch x := ins.(type) {
 				case *ssa.Store:
+					if x == whole {
+						continue
+					}
+					if fd := rootField(x.Addr, dst); fd != nil && !after(x) {
+						early[fd] = true
+					}
 					if fs, ok := localFrom[stripConv(x.Val)]; ok {
 						if fd := rootField(x.Addr, dst); fd != nil {
 							if fd == fs {
@@ -107,7 +174,31 @@ func ruleDeepCopy(c *Ctx, r *Report, prefix string) {
 					}
 				case *ssa.Call:
 					if len(x.Call.Args) >= 2 {
+						if fd := rootField(x.Call.Args[0], dst); fd != nil && !after(x) {
+							early[fd] = true
+						}
 						pair(x.Call.Args[0], x.Call.Args[1])
+					}
+				}
+			}
+		}
+		reused := map[*types.Var]bool{}
+		if wholeIn != "" {
+			for _, b := range theCtx.GB(fn) {
+				for _, ins := range b.Instrs {
+					x, isSt := ins.(*ssa.Store)
+					if !isSt {
+						continue
+					}
+					fa, direct := x.Addr.(*ssa.FieldAddr)
+					if !direct || fa.X != ssa.Value(dst) {
+						continue
+					}
+					if _, isSl := x.Val.Type().Underlying().(*types.Slice); !isSl {
+						continue
+					}
+					if !freshSlice(x.Val) {
+						reused[fieldOfAddr(fa)] = true
 					}
 				}
 			}
@@ -116,10 +207,24 @@ func ruleDeepCopy(c *Ctx, r *Report, prefix string) {
 			f := st.Field(i)
 			key := FnName(fn) + ":" + f.Name()
 			ok := paired[f]
+			if whole != nil && !containsRef(f.Type(), 0) {
+				ok = true // copied by `*dst = *src`
+			}
+			if whole != nil && containsRef(f.Type(), 0) && !paired[f] {
+				shared[f] = true
+			}
 			bad := "deepcopy has no statement that copies src." + f.Name() + " into dst." + f.Name() + ": the state snapshot taken at the start of a chunk does not carry this field"
 			if g, mis := mispaired[f]; mis {
 				ok = false
 				bad = "deepcopy fills dst." + f.Name() + " from src." + g
+			}
+			if whole != nil && early[f] {
+				ok = false
+				bad = "deepcopy copies " + f.Name() + " before `*dst = *src` overwrites it with the shared value"
+			}
+			if reused[f] {
+				ok = false
+				bad = "deepcopy fills dst." + f.Name() + " with something built from storage dst already has, but " + wholeIn + " assigns `*dst = *src` first: that storage is the source's, so snapshot and live state share it"
 			}
 			if shared[f] {
 				ok = false
@@ -200,4 +305,52 @@ func isRefType(t types.Type) bool {
 		return true
 	}
 	return false
+}
+
+// singleReturnRaw: the value of the only return statement of a one-result function (nil otherwise).
+func singleReturnRaw(fn *ssa.Function) ssa.Value {
+	var rv ssa.Value
+	for _, b := range fn.Blocks {
+		if r, ok := b.Instrs[len(b.Instrs)-1].(*ssa.Return); ok && len(r.Results) == 1 {
+			if rv != nil {
+				return nil
+			}
+			rv = r.Results[0]
+		}
+	}
+	return rv
+}
+
+// freshSlice: v is a slice that was allocated for this purpose: make, append(nil, ...), or the result
+// of a new helper that returns such a slice.
+func freshSlice(v ssa.Value) bool {
+	switch x := stripConvNoLook(v).(type) {
+	case *ssa.MakeSlice:
+		return true
+	case *ssa.Call:
+		if bi, isB := x.Call.Value.(*ssa.Builtin); isB && bi.Name() == "append" {
+			return isNilConst(stripConvNoLook(x.Call.Args[0])) || freshSlice(x.Call.Args[0])
+		}
+		if h := x.Call.StaticCallee(); h != nil && theCtx.IsNew(h) && h.Signature.Results().Len() == 1 {
+			if rv := singleReturnRaw(h); rv != nil {
+				return freshSlice(rv)
+			}
+		}
+	case *ssa.Slice:
+		return freshSlice(x.X)
+	}
+	return false
+}
+
+func stripConvNoLook(v ssa.Value) ssa.Value {
+	for {
+		switch x := v.(type) {
+		case *ssa.Convert:
+			v = x.X
+		case *ssa.ChangeType:
+			v = x.X
+		default:
+			return v
+		}
+	}
 }
